@@ -95,7 +95,138 @@ type linProver struct {
 	budget   int
 	nnDepth  int
 	pre      []linFact // contract facts about the parameters (valid everywhere)
+	liftMode bool
+	lifted   []lin
 	Trace    []string
+}
+
+// isParamAtom: an integer parameter of the function, or len/cap of a slice /
+// string parameter (both immutable for the whole activation).
+func isParamAtom(a ssa.Value) bool {
+	switch x := a.(type) {
+	case *ssa.Parameter:
+		return isIntType(x.Type())
+	case *lenMarker:
+		_, ok := x.x.(*ssa.Parameter)
+		return ok
+	}
+	return false
+}
+
+// ProveOrLift proves L <= R at `at`; failing that it looks for a precondition
+// over the function's parameters only (returned as a linear form that must be
+// <= 0 at every call) under which the goal follows from the local facts.
+func (lp *linProver) ProveOrLift(at ssa.Instruction, L, R lin) (bool, []lin) {
+	if lp.proveAt(at, L, R, 0, nil) {
+		return true, nil
+	}
+	lp.liftMode, lp.lifted = true, nil
+	defer func() { lp.liftMode = false }()
+	cx := &linCtx{at: at, subst: map[ssa.Value]ssa.Value{}}
+	goal := L.sub(R)
+	facts := lp.gatherFacts(goal, cx)
+	lp.budget = 20000
+	lp.search(goal, facts, 0)
+	out := lp.lifted
+	lp.lifted = nil
+	// weakest-looking candidates first: fewer atoms, then smaller constant
+	sort.SliceStable(out, func(i, j int) bool {
+		if len(out[i].c) != len(out[j].c) {
+			return len(out[i].c) < len(out[j].c)
+		}
+		return out[i].k < out[j].k
+	})
+	return false, out
+}
+
+// linAxiom is a reviewed fact about library / data invariants, matched
+// structurally (callee, field and type names) wherever the value occurs.
+type linAxiom struct {
+	Kind   string `json:"kind"`   // callret | retfield | lenfield | lencall | field
+	Callee string `json:"callee"` // function / method name (callret, retfield, lencall)
+	Idx    int    `json:"idx"`
+	Type   string `json:"type"`  // struct type name (lenfield, field)
+	Field  string `json:"field"` // field name
+	Ge     *int64 `json:"ge"`
+	Le     *int64 `json:"le"`
+	Reason string `json:"reason"`
+}
+
+var linAxioms []linAxiom
+var linAxiomUsed = map[int]bool{}
+
+func callName(c *ssa.Call) string {
+	if c.Call.IsInvoke() {
+		return c.Call.Method.Name()
+	}
+	if f := c.Call.StaticCallee(); f != nil {
+		return f.Name()
+	}
+	return ""
+}
+
+// axiomFacts returns the bounds the axioms give for an atom.
+func (lp *linProver) axiomFacts(a ssa.Value, ge, le func(lin, string)) {
+	emit := func(i int, ax linAxiom) {
+		linAxiomUsed[i] = true
+		if ax.Ge != nil {
+			ge(linConst(*ax.Ge), "axiom: "+ax.Reason)
+		}
+		if ax.Le != nil {
+			le(linConst(*ax.Le), "axiom: "+ax.Reason)
+		}
+	}
+	retOf := func(v ssa.Value) (*ssa.Call, int) {
+		switch x := v.(type) {
+		case *ssa.Call:
+			return x, 0
+		case *ssa.Extract:
+			if c, ok := x.Tuple.(*ssa.Call); ok {
+				return c, x.Index
+			}
+		}
+		return nil, -1
+	}
+	for i, ax := range linAxioms {
+		switch ax.Kind {
+		case "callret":
+			if c, idx := retOf(a); c != nil && idx == ax.Idx && callName(c) == ax.Callee {
+				emit(i, ax)
+			}
+		case "retfield":
+			if u, ok := a.(*ssa.UnOp); ok && u.Op == token.MUL {
+				if fa, ok := u.X.(*ssa.FieldAddr); ok && structField(fa.X.Type(), fa.Field).Name() == ax.Field {
+					if c, idx := retOf(resolve(fa.X)); c != nil && idx == ax.Idx && callName(c) == ax.Callee {
+						emit(i, ax)
+					}
+				}
+			}
+		case "field":
+			if u, ok := a.(*ssa.UnOp); ok && u.Op == token.MUL {
+				if fa, ok := u.X.(*ssa.FieldAddr); ok && structField(fa.X.Type(), fa.Field).Name() == ax.Field {
+					if n := namedOf(fa.X.Type()); n != nil && n.Obj().Name() == ax.Type {
+						emit(i, ax)
+					}
+				}
+			}
+		case "lenfield":
+			if m, ok := a.(*lenMarker); ok && !m.cap {
+				if u, ok := m.x.(*ssa.UnOp); ok && u.Op == token.MUL {
+					if fa, ok := u.X.(*ssa.FieldAddr); ok && structField(fa.X.Type(), fa.Field).Name() == ax.Field {
+						if n := namedOf(fa.X.Type()); n != nil && n.Obj().Name() == ax.Type {
+							emit(i, ax)
+						}
+					}
+				}
+			}
+		case "lencall":
+			if m, ok := a.(*lenMarker); ok && !m.cap {
+				if c, idx := retOf(m.x); c != nil && idx == ax.Idx && callName(c) == ax.Callee {
+					emit(i, ax)
+				}
+			}
+		}
+	}
 }
 
 func newLinProver(p *Prog, fn *ssa.Function) *linProver {
@@ -216,6 +347,35 @@ func (lp *linProver) storesToField(f *types.Var) []*ssa.Store {
 	return out
 }
 
+var fieldWritersMemo = map[*types.Var]map[*ssa.Function]bool{}
+
+// fieldWrittenElsewhere: some repository function other than `self` stores to
+// the field (or takes its address) on an object it did not just allocate.
+func fieldWrittenElsewhere(p *Prog, f *types.Var, self *ssa.Function) bool {
+	ws, ok := fieldWritersMemo[f]
+	if !ok {
+		ws = map[*ssa.Function]bool{}
+		for _, fr := range fieldRefs(p.RepoFns, f) {
+			if fr.Kind != "store" && fr.Kind != "addr" {
+				continue
+			}
+			if fa, ok := fr.Addr.(*ssa.FieldAddr); ok {
+				if al, ok := resolve(fa.X).(*ssa.Alloc); ok && al.Parent() == fr.Fn {
+					continue // object under construction
+				}
+			}
+			ws[fr.Fn] = true
+		}
+		fieldWritersMemo[f] = ws
+	}
+	for fn := range ws {
+		if fn != self {
+			return true
+		}
+	}
+	return false
+}
+
 // between: x lies on some path a→b.
 func between(a, x, b ssa.Instruction) bool {
 	return reachableAfter(a, x) && reachableAfter(x, b)
@@ -240,12 +400,48 @@ func (lp *linProver) canon(v ssa.Value) ssa.Value {
 	f := structField(fa.X.Type(), fa.Field)
 	stores := lp.storesToField(f)
 	lp.canonMem[v] = v
+	// calls that may write the field (only relevant when some other function of
+	// the repository stores to it on a shared object)
+	var mayWriteCalls []ssa.Instruction
+	if fieldWrittenElsewhere(lp.p, f, lp.fn) {
+		allInstrs(lp.fn, func(in ssa.Instruction) {
+			ci, ok := in.(ssa.CallInstruction)
+			if !ok {
+				return
+			}
+			if _, isB := ci.Common().Value.(*ssa.Builtin); isB {
+				return
+			}
+			if callee := staticCallee(ci); callee != nil && !lp.p.IsRepoFn(callee) && len(callee.AnonFuncs) == 0 {
+				// library code cannot name the repository's unexported state; callbacks are the
+				// exception and arrive as function-typed arguments
+				hasFn := false
+				for _, a := range ci.Common().Args {
+					if _, isSig := a.Type().Underlying().(*types.Signature); isSig {
+						hasFn = true
+					}
+				}
+				if !hasFn {
+					return
+				}
+			}
+			mayWriteCalls = append(mayWriteCalls, in)
+		})
+	}
+	callBetween := func(a, b ssa.Instruction) bool {
+		for _, c := range mayWriteCalls {
+			if between(a, c, b) {
+				return true
+			}
+		}
+		return false
+	}
 	// dominating store to the same path
 	for _, st := range stores {
 		if !samePath(st.Addr, u.X) || !dominates(st, u) {
 			continue
 		}
-		clean := true
+		clean := !callBetween(st, u)
 		for _, s2 := range stores {
 			if s2 != st && between(st, s2, u) {
 				clean = false
@@ -262,7 +458,7 @@ func (lp *linProver) canon(v ssa.Value) ssa.Value {
 		if l == u || !samePath(l.X, u.X) {
 			continue
 		}
-		clean := true
+		clean := !callBetween(l, u) && !callBetween(u, l)
 		for _, st := range stores {
 			if between(l, st, u) || between(u, st, l) {
 				clean = false
@@ -307,6 +503,15 @@ func (lp *linProver) lenOf(x ssa.Value, cx *linCtx) lin {
 		// len(append(a, b...)) = len(a) + len(b)
 		if b, ok := v.Call.Value.(*ssa.Builtin); ok && b.Name() == "append" && len(v.Call.Args) == 2 {
 			return lp.lenOf(v.Call.Args[0], cx).add(lp.lenOf(v.Call.Args[1], cx))
+		}
+		// len(bytes.Clone(x)) = len(slices.Clone(x)) = len(x)
+		if f := staticCallee(v); f != nil && len(v.Call.Args) == 1 {
+			if o := f.Origin(); o != nil {
+				f = o
+			}
+			if s := f.String(); s == "bytes.Clone" || s == "slices.Clone" {
+				return lp.lenOf(v.Call.Args[0], cx)
+			}
 		}
 	case *ssa.Convert:
 		// string <-> []byte keeps the length
@@ -603,6 +808,7 @@ func (lp *linProver) atomFacts(a ssa.Value, cx *linCtx) []linFact {
 	A := linAtom(a)
 	ge := func(lo lin, why string) { out = append(out, linFact{lo.sub(A), why}) } // lo <= a
 	le := func(hi lin, why string) { out = append(out, linFact{A.sub(hi), why}) } // a <= hi
+	lp.axiomFacts(a, ge, le)
 	if m, ok := a.(*lenMarker); ok {
 		ge(linConst(0), "len>=0")
 		if !m.cap {
@@ -638,6 +844,12 @@ func (lp *linProver) atomFacts(a ssa.Value, cx *linCtx) []linFact {
 			} else if k, ok := constInt(x.X); ok && k >= 0 {
 				ge(linConst(0), "x&c")
 				le(linConst(k), "x&c")
+			}
+		case token.OR, token.XOR:
+			// x|y and x^y of non-negative operands: 0 <= r <= x+y
+			if lp.provNonNeg(x, x.X, cx) && lp.provNonNeg(x, x.Y, cx) {
+				ge(linConst(0), "x|y>=0")
+				le(lp.lin(x.X, cx).add(lp.lin(x.Y, cx)), "x|y<=x+y")
 			}
 		case token.REM:
 			if k, ok := constInt(x.Y); ok && k > 0 {
@@ -696,6 +908,16 @@ func (lp *linProver) atomFacts(a ssa.Value, cx *linCtx) []linFact {
 			case "(*math/rand.Rand).Intn":
 				ge(linConst(0), "rand.Intn")
 				le(lp.lin(x.Call.Args[1], cx).sub(linConst(1)), "rand.Intn<n")
+			case "(*bytes.Reader).Len", "(*strings.Reader).Len":
+				// 0 <= r.Len() <= len(data) for r = bytes.NewReader(data) / NewBuffer(data)
+				ge(linConst(0), "Reader.Len>=0")
+				if len(x.Call.Args) == 1 {
+					if mk, ok := resolve(x.Call.Args[0]).(*ssa.Call); ok {
+						if g := staticCallee(mk); g != nil && (g.String() == "bytes.NewReader" || g.String() == "strings.NewReader") && len(mk.Call.Args) == 1 {
+							le(lp.lenOf(mk.Call.Args[0], cx), "Reader.Len<=len(data)")
+						}
+					}
+				}
 			default:
 				if lo, ok := calleeLowerBound(lp.p, f, 0); ok && isIntType(x.Type()) {
 					ge(linConst(lo), "result of "+f.Name()+" >= "+fmt.Sprint(lo))
@@ -884,7 +1106,139 @@ func (lp *linProver) gatherFacts(goal lin, cx *linCtx) []linFact {
 			facts = append(facts, lp.atomFacts(a, cx)...)
 		}
 	}
+	// constructor-established length relations between sibling fields
+	var lenAtoms []*lenMarker
+	for a := range seen {
+		if m, ok := a.(*lenMarker); ok && !m.cap {
+			lenAtoms = append(lenAtoms, m)
+		}
+	}
+	loadOf := func(m *lenMarker) (*ssa.FieldAddr, *types.Var) {
+		u, ok := m.x.(*ssa.UnOp)
+		if !ok || u.Op != token.MUL {
+			return nil, nil
+		}
+		fa, ok := u.X.(*ssa.FieldAddr)
+		if !ok {
+			return nil, nil
+		}
+		return fa, structField(fa.X.Type(), fa.Field)
+	}
+	for _, mF := range lenAtoms {
+		faF, F := loadOf(mF)
+		if F == nil {
+			continue
+		}
+		inv := fieldLenInvariant(lp.p, F)
+		if inv == nil {
+			continue
+		}
+		rhs := linConst(inv.k)
+		okAll := true
+		for G, coef := range inv.terms {
+			found := false
+			for _, mG := range lenAtoms {
+				faG, g := loadOf(mG)
+				if g == G && samePath(faG.X, faF.X) {
+					rhs = rhs.addScaled(linAtom(mG), coef)
+					found = true
+					break
+				}
+			}
+			if !found {
+				okAll = false
+			}
+		}
+		if okAll {
+			e := linAtom(mF).sub(rhs)
+			facts = append(facts, linFact{e, "field length invariant of " + F.Name()}, linFact{linConst(0).sub(e), "field length invariant of " + F.Name()})
+		}
+	}
 	return facts
+}
+
+// fieldLenInv: len(o.F) = Σ coef·len(o.G) + k for sibling fields of one object,
+// established where the object is built and never changed afterwards (each of
+// the fields involved has exactly one store in the whole repository, into a
+// freshly allocated object, and its address is never taken).
+type fieldLenInv struct {
+	terms map[*types.Var]int64
+	k     int64
+}
+
+var fieldLenInvMemo = map[*types.Var]*fieldLenInv{}
+var fieldLenInvDone = map[*types.Var]bool{}
+
+func singleFreshStore(p *Prog, f *types.Var) *ssa.Store {
+	var st *ssa.Store
+	n := 0
+	for _, fr := range fieldRefs(p.RepoFns, f) {
+		switch fr.Kind {
+		case "store":
+			n++
+			st, _ = fr.Instr.(*ssa.Store)
+		case "addr":
+			return nil
+		}
+	}
+	if n != 1 || st == nil {
+		return nil
+	}
+	fa, ok := st.Addr.(*ssa.FieldAddr)
+	if !ok {
+		return nil
+	}
+	if al, ok := resolve(fa.X).(*ssa.Alloc); !ok || al.Parent() != st.Parent() {
+		return nil
+	}
+	return st
+}
+
+func fieldLenInvariant(p *Prog, F *types.Var) *fieldLenInv {
+	if fieldLenInvDone[F] {
+		return fieldLenInvMemo[F]
+	}
+	fieldLenInvDone[F] = true
+	st := singleFreshStore(p, F)
+	if st == nil {
+		return nil
+	}
+	mk, ok := resolve(st.Val).(*ssa.MakeSlice)
+	if !ok {
+		return nil
+	}
+	base := resolve(st.Addr.(*ssa.FieldAddr).X)
+	cp := newLinProver(p, st.Parent())
+	L := cp.lin(mk.Len, cp.newCtx(st))
+	inv := &fieldLenInv{terms: map[*types.Var]int64{}, k: L.k}
+	owner, _ := base.Type().(*types.Pointer)
+	if owner == nil {
+		return nil
+	}
+	stc, ok := owner.Elem().Underlying().(*types.Struct)
+	if !ok {
+		return nil
+	}
+	// single-sibling form: len(F) = len(G) + k
+	cx := cp.newCtx(st)
+	for i := 0; i < stc.NumFields(); i++ {
+		g := stc.Field(i)
+		if g == F || !isBytesOrString(g.Type()) {
+			continue
+		}
+		gs := singleFreshStore(p, g)
+		if gs == nil || gs.Parent() != st.Parent() || resolve(gs.Addr.(*ssa.FieldAddr).X) != base {
+			continue
+		}
+		d := L.sub(cp.lenOf(gs.Val, cx))
+		if d.isConst() {
+			inv.terms[g] = 1
+			inv.k = d.k
+			fieldLenInvMemo[F] = inv
+			return inv
+		}
+	}
+	return nil
 }
 
 func (lp *linProver) proveGoal(goal lin, cx *linCtx, split int) bool {
@@ -1038,6 +1392,28 @@ func (lp *linProver) search(res lin, facts []linFact, depth int) bool {
 	if res.isConst() {
 		return res.k <= 0
 	}
+	if lp.liftMode {
+		// a residual over the function's own parameters only is a candidate
+		// precondition (to be established by every caller)
+		all := true
+		for a := range res.c {
+			if !isParamAtom(a) {
+				all = false
+			}
+		}
+		if all && len(lp.lifted) < 8 {
+			dupl := false
+			for _, x := range lp.lifted {
+				if x.String() == res.String() {
+					dupl = true
+				}
+			}
+			if !dupl {
+				lp.lifted = append(lp.lifted, res.clone())
+			}
+			// keep exploring: local guards may reduce the precondition further
+		}
+	}
 	if depth > 7 || lp.budget <= 0 {
 		return false
 	}
@@ -1054,11 +1430,20 @@ func (lp *linProver) search(res lin, facts []linFact, depth int) bool {
 			}
 		}
 		if n == 0 {
+			if lp.liftMode && isParamAtom(a) {
+				continue // may remain in the lifted precondition
+			}
 			return false // atom cannot be eliminated
+		}
+		if lp.liftMode && isParamAtom(a) {
+			n += 1000 // eliminate the function's own values first
 		}
 		if best < 0 || n < best {
 			best, pick = n, a
 		}
+	}
+	if pick == nil {
+		return false
 	}
 	c := res.c[pick]
 	for _, f := range facts {
@@ -1082,6 +1467,59 @@ func (lp *linProver) search(res lin, facts []linFact, depth int) bool {
 
 // ---------------------------------------------------------------------------
 // bounds obligations of one site
+
+// linGoal is one inequality L <= R a site needs.
+type linGoal struct {
+	L, R lin
+	What string
+}
+
+// siteGoals lists the inequalities an index / slice instruction needs.
+func (lp *linProver) siteGoals(in ssa.Instruction) []linGoal {
+	cx := lp.newCtx(in)
+	var out []linGoal
+	add := func(a, b lin, what string) { out = append(out, linGoal{a, b, what}) }
+	idxGoals := func(x, index ssa.Value) {
+		idx := lp.lin(index, cx)
+		add(linConst(0), idx, "index >= 0")
+		add(idx.add(linConst(1)), lp.lenOf(x, cx), "index < len")
+	}
+	switch x := in.(type) {
+	case *ssa.IndexAddr:
+		idxGoals(x.X, x.Index)
+	case *ssa.Index:
+		idxGoals(x.X, x.Index)
+	case *ssa.Lookup:
+		if _, isMap := x.X.Type().Underlying().(*types.Map); !isMap {
+			idxGoals(x.X, x.Index)
+		}
+	case *ssa.Slice:
+		limit := lp.capOf(x.X, cx)
+		lo := linConst(0)
+		if x.Low != nil {
+			lo = lp.lin(x.Low, cx)
+			add(linConst(0), lo, "low >= 0")
+		}
+		if x.Max != nil {
+			mx := lp.lin(x.Max, cx)
+			add(mx, limit, "max <= cap")
+			limit = mx
+		}
+		if x.High != nil {
+			hi := lp.lin(x.High, cx)
+			add(hi, limit, "high <= cap")
+			add(lo, hi, "low <= high")
+		} else {
+			add(lo, lp.lenOf(x.X, cx), "low <= len")
+		}
+	case *ssa.SliceToArrayPointer:
+		a := x.Type().(*types.Pointer).Elem().Underlying().(*types.Array)
+		add(linConst(a.Len()), lp.lenOf(x.X, cx), "array length <= len")
+	default:
+		add(linConst(1), linConst(0), "unsupported site kind")
+	}
+	return out
+}
 
 // siteBounds proves the bounds checks of an index / slice instruction; the
 // returned string names the first check that could not be proved.
